@@ -39,3 +39,135 @@ theorem typed_arms_agree (kvs : Kvs) (hb : tyOf kvs ≠ .bad) :
     | integer => exact typed_arms_agree_integer fmt en cn sub num str arr obj rf
 
 end TypifyModel.Dispatch
+
+namespace TypifyModel.Dispatch
+open TypifyModel TypifyModel.Excl TypifyModel.Generated
+
+/-! ### the first arm that matches -/
+
+/-- position of the first arm whose patterns and guard hold; `none` when an arm without a reading comes first -/
+def srcFirst (ty : TyAbs) (g : Groups) : List CArm → Nat → Option Nat
+  | [], _ => none
+  | c :: r, i =>
+    match cGuard c ty g with
+    | some true => some i
+    | some false => srcFirst ty g r (i + 1)
+    | none => none
+
+/-- position of the first `true` -/
+def firstTrue : List Bool → Nat → Option Nat
+  | [], _ => none
+  | b :: r, i => if b then some i else firstTrue r (i + 1)
+
+theorem srcFirst_of_guards (ty : TyAbs) (g : Groups) :
+    ∀ (l : List CArm) (bs : List Bool) (rest : List CArm) (i : Nat), l.map (fun c => cGuard c ty g) = bs.map some →
+      srcFirst ty g (l ++ rest) i = (match firstTrue bs i with | some k => some k | none => srcFirst ty g rest (i + l.length)) := by
+  intro l
+  induction l with
+  | nil =>
+    intro bs rest i h
+    have : bs = [] := by cases bs with | nil => rfl | cons b r => simp at h
+    subst this; simp [firstTrue]
+  | cons c l ih =>
+    intro bs rest i h
+    cases bs with
+    | nil => simp at h
+    | cons b r =>
+      simp only [List.map_cons, List.cons.injEq] at h
+      obtain ⟨hc, hr⟩ := h
+      cases b with
+      | true => simp [srcFirst, hc, firstTrue]
+      | false =>
+        simp only [List.cons_append, srcFirst, hc, firstTrue, Bool.false_eq_true, if_false]
+        rw [ih r rest (i + 1) hr]
+        have : i + 1 + l.length = i + (c :: l).length := by simp; omega
+        rw [this]
+
+def rwIdx : RW → Nat
+  | .dropConst => 0 | .dropType => 1 | .oneType => 2 | .multiType => 3 | .todo => 4
+
+theorem firstRW_idx (ty : TyAbs) (g : Groups) : ∀ (l : List (CArm × RW)) (i : Nat) (r : RW), firstRW ty g l = some r →
+    (∀ p ∈ l.zipIdx, True) → ∃ k, srcFirst ty g (l.map (·.1)) i = some (i + k) ∧ (l.map (·.2))[k]? = some r := by
+  intro l
+  induction l with
+  | nil => intro i r h; simp [firstRW] at h
+  | cons p l ih =>
+    intro i r h _
+    obtain ⟨c, rr⟩ := p
+    simp only [firstRW] at h
+    cases hc : cGuard c ty g with
+    | none => rw [hc] at h; cases h
+    | some b =>
+      rw [hc] at h
+      cases b with
+      | true => simp only at h; cases h; exact ⟨0, by simp [srcFirst, hc], by simp⟩
+      | false =>
+        simp only at h
+        obtain ⟨k, hk, hk2⟩ := ih (i + 1) r h (fun _ _ => trivial)
+        exact ⟨k + 1, by simp [srcFirst, hc, hk]; omega, by simpa using hk2⟩
+
+/-- the kinds of the last five arms are pairwise different, so the position determines the kind -/
+theorem expRewrite_kinds : expRewrite.map (·.2) = [.dropConst, .dropType, .oneType, .multiType, .todo] ∧
+    expRewrite.map (·.1) = expectedArms.drop 21 := by decide +kernel
+
+theorem rewrite_arms_agree (ty : TyAbs) (g : Groups) : firstRW ty g expRewrite = some (rwModel ty g) := by
+  obtain ⟨fmt, en, cn, sub, num, str, arr, obj, rf⟩ := g
+  cases ty with
+  | none => exact rewrite_arms_agree_none fmt en cn sub num str arr obj rf
+  | single t => exact rewrite_arms_agree_single t (mem_allJT t) fmt en cn sub num str arr obj rf
+  | multi a b c => exact rewrite_arms_agree_multi a b c fmt en cn sub num str arr obj rf
+
+theorem arm0_guard (ty : TyAbs) (g : Groups) :
+    cGuard ⟨.vec, .any, .any, .any, .any, .any, .any, .any, .any, .any, some .twoWithNull⟩ ty g =
+      some (match ty with | .multi b _ _ => b | _ => false) := by
+  cases ty <;> simp [cGuard, itB, fpB, guardKB, andO]
+
+theorem expectedArms_split : expectedArms =
+    [⟨.vec, .any, .any, .any, .any, .any, .any, .any, .any, .any, some .twoWithNull⟩] ++ (expTyped ++ expRewrite.map (·.1)) := by
+  decide +kernel
+
+/-- **the arm the source takes = the arm the model takes.** For every schema object whose `type` schemars can read, the first
+    arm of `match schema` as written in /repo now (table T11) whose patterns and guard hold is: arm 0 exactly when the model's
+    `armNullable` fires; otherwise arm 1 + k where k is the first guard of the model's table `typedArms` that holds; otherwise
+    arm 21 + the kind `armsRewrite` takes (`armsRewrite_is_rwModel`) -/
+theorem source_first_match (kvs : Kvs) (hb : tyOf kvs ≠ .bad) :
+    srcFirst (absTy (tyOf kvs)) (groupsOf kvs) (dispatchArms.map compact) 0 =
+      some (if (match absTy (tyOf kvs) with | .multi b _ _ => b | _ => false) then 0
+            else match firstTrue ((typedArms kvs (isSingle (tyOf kvs)) (isUntyped (tyOf kvs)) (isOne (tyOf kvs))).map (·.1)) 1 with
+              | some k => k
+              | none => 21 + rwIdx (rwModel (absTy (tyOf kvs)) (groupsOf kvs))) := by
+  have hta := typed_arms_agree kvs hb
+  rw [source_arms_as_read] at hta ⊢
+  change expTyped.map _ = _ at hta
+  rw [expectedArms_split]
+  simp only [List.singleton_append, srcFirst, arm0_guard]
+  cases h0 : (match absTy (tyOf kvs) with | .multi b _ _ => b | _ => false) with
+  | true => simp
+  | false =>
+    simp only [Bool.false_eq_true, if_false]
+    have hmap : (typedArms kvs (isSingle (tyOf kvs)) (isUntyped (tyOf kvs)) (isOne (tyOf kvs))).map (fun ga => some ga.1) =
+        ((typedArms kvs (isSingle (tyOf kvs)) (isUntyped (tyOf kvs)) (isOne (tyOf kvs))).map (·.1)).map some := by
+      simp [List.map_map]
+    rw [hmap] at hta
+    rw [srcFirst_of_guards _ _ expTyped _ _ 1 hta]
+    cases hft : firstTrue ((typedArms kvs (isSingle (tyOf kvs)) (isUntyped (tyOf kvs)) (isOne (tyOf kvs))).map (·.1)) 1 with
+    | some k => rfl
+    | none =>
+      simp only
+      obtain ⟨k, hk, hk2⟩ := firstRW_idx (absTy (tyOf kvs)) (groupsOf kvs) expRewrite (1 + expTyped.length) _
+        (rewrite_arms_agree _ _) (fun _ _ => trivial)
+      rw [hk]
+      have hlen : expTyped.length = 20 := by decide +kernel
+      rw [expRewrite_kinds.1] at hk2
+      have : k = rwIdx (rwModel (absTy (tyOf kvs)) (groupsOf kvs)) := by
+        cases hr : rwModel (absTy (tyOf kvs)) (groupsOf kvs) <;> rw [hr] at hk2 <;>
+          (match k, hk2 with
+           | 0, h => first | rfl | (simp at h)
+           | 1, h => first | rfl | (simp at h)
+           | 2, h => first | rfl | (simp at h)
+           | 3, h => first | rfl | (simp at h)
+           | 4, h => first | rfl | (simp at h)
+           | n + 5, h => simp at h)
+      rw [this, hlen]
+
+end TypifyModel.Dispatch
